@@ -61,27 +61,32 @@ ConfSet(t) == SeqSet(t.conf)
 Traceable(i, h) == i <= h /\ i + Window > h
 
 BlockHas(b, id)        == \E k \in DOMAIN b : b[k].id = id
-BlockNames(b, id, sgs) == \E k \in DOMAIN b : id \in ConfSet(b[k]) /\ SgSet(b[k]) \cap sgs # {}
 BlockNamesAny(b, id)   == \E k \in DOMAIN b : id \in ConfSet(b[k])
 
-OnChainIdx(chain, id)     == {i \in DOMAIN chain : BlockHas(chain[i], id)}
-NamerIdx(chain, id, sgs)  == {i \in DOMAIN chain : BlockNames(chain[i], id, sgs)}
-AnyNamerIdx(chain, id)    == {i \in DOMAIN chain : BlockNamesAny(chain[i], id)}
+TxsAt(chain, I) == UNION {SeqSet(chain[i]) : i \in I}
+TraceIdx(chain) == {i \in DOMAIN chain : Traceable(i, Len(chain))}
+Ids(T)    == {t.id : t \in T}
+Naming(T) == UNION {ConfSet(t) \X SgSet(t) : t \in T}      \* pairs <<named hash, signer of the naming transaction>>
 
-SomeTraceable(I, h) == \E i \in I : Traceable(i, h)
+\* everything the verdict needs to know about a chain: what is on chain / named, inside the window (T) and at all (A)
+View(chain) ==
+    [dupT |-> Ids(TxsAt(chain, TraceIdx(chain))),   namT |-> Naming(TxsAt(chain, TraceIdx(chain))),
+     dupA |-> Ids(TxsAt(chain, DOMAIN chain)),      namA |-> Naming(TxsAt(chain, DOMAIN chain))]
 
-\* the three grounds of clause (a), each with the names the trace judge reports
-IsDup(chain, c)      == SomeTraceable(OnChainIdx(chain, c.id), Len(chain))
-IsConflict(chain, c) == SomeTraceable(NamerIdx(chain, c.id, SgSet(c)), Len(chain))
-IsBadAttr(chain, c)  == \E x \in ConfSet(c) : SomeTraceable(OnChainIdx(chain, x), Len(chain))
+\* the three grounds of clause (a), each with the name the trace judge reports
+IsDupV(v, c)      == c.id \in v.dupT
+IsConflictV(v, c) == \E s \in SgSet(c) : <<c.id, s>> \in v.namT
+IsBadAttrV(v, c)  == ConfSet(c) \cap v.dupT # {}
 
-MustReject(chain, c) == IsDup(chain, c) \/ IsConflict(chain, c) \/ IsBadAttr(chain, c)
-MustAccept(chain, c) == /\ OnChainIdx(chain, c.id) = {}
-                        /\ NamerIdx(chain, c.id, SgSet(c)) = {}
-                        /\ \A x \in ConfSet(c) : OnChainIdx(chain, x) = {}
+RejectV(v, c) == IsDupV(v, c) \/ IsConflictV(v, c) \/ IsBadAttrV(v, c)
+AcceptV(v, c) == /\ c.id \notin v.dupA
+                 /\ \A s \in SgSet(c) : <<c.id, s>> \notin v.namA
+                 /\ ConfSet(c) \cap v.dupA = {}
+VerdictV(v, c) == IF RejectV(v, c) THEN "reject" ELSE IF AcceptV(v, c) THEN "accept" ELSE "open"
 
-Verdict(chain, c) == IF MustReject(chain, c) THEN "reject"
-                     ELSE IF MustAccept(chain, c) THEN "accept" ELSE "open"
+MustReject(chain, c) == RejectV(View(chain), c)
+MustAccept(chain, c) == AcceptV(View(chain), c)
+Verdict(chain, c)    == VerdictV(View(chain), c)
 
 \* observation o = [pooled |-> BOOLEAN] of one node for one offered transaction
 Sound(chain, c, pooled)  == MustReject(chain, c) => ~pooled
